@@ -105,7 +105,10 @@ def run(chk, tier, proof_ok):
                         'for the sphere) against sums / Simpson integrals of the real pdf with counting-error bounds '
                         '(see quadrature.py docstring); logpdf(x\'|x) = logpdf(x|x\') for families declaring '
                         'symmetric; bit-identical logpdf under every order of <= %d earlier queries; '
-                        'identically seeded adaptive chains with / without extra queries; settings histories: the same '
+                        'identically seeded adaptive chains with / without extra queries; the solid-angle families in all '
+                        'four angle conventions (radec x degs): points in the convention\'s coordinates, outputs inside '
+                        'its ranges, cap and cap x sector masses against the reported pdf integrated in the geometric '
+                        'frame (solid-angle element exact, no fitted Jacobian); settings histories: the same '
                         'push-forward comparison on real objects after reset_proposals (once, twice, after re-adaptation, '
                         'plus one step), set_state from another instance (into a fresh and into an adapted one), '
                         'assignment to std / cov / boundaries / kappa / successive / eigvals+eigvects, set_jump_interval '
